@@ -13,6 +13,7 @@ def run(F, G, tier, seed):
     effects.gate_table(chk, F, rid, effects.C11_CONTEXTS)
     effects.quantifier_bodies(chk, F, rid)
     effects.run_argsibling(chk, F)
+    effects.run_summaryorder(chk, F)
     kinds = effects.run_writekinds(chk, F, G, parts=("collect",))
     effects.run_lvshape(chk, F, G, parts=("symbols",))
     effects.run_visitors(chk, F, visitors=("UTAP::CollectChangesVisitor",))
